@@ -13,10 +13,12 @@ ID = "C05"
 LEVEL = "exploration"
 RULE = (
     "Generated programs that call the same task with the same arguments under different effective "
-    "contexts: the value depends on get_context directly, through a child job, or through a default "
-    "argument; calls are made with and without update_context overrides (dict overrides, nested "
+    "contexts: the value depends on get_context directly, through a child job, through a default "
+    "argument that is a get_context expression, or through a default argument that is a task call "
+    "reading the context; calls are made with and without update_context overrides (dict overrides, nested "
     "keys), in either order; ordered by seq (second starts after the first finished), by data "
-    "dependency, side by side (twin still pending) or across two executions on one backend; "
+    "dependency, side by side (twin still pending), across two executions on one backend, or as a "
+    "three-step history (context A; later execution: context B, then A again); "
     "check_valid full and shallow; root context empty or non-empty (config + run(context=)); each run "
     "under a generated completion schedule. Oracle: the reference interpreter's context model gives "
     "each call's value for ITS effective context; the result of every execution must equal it. "
@@ -33,13 +35,16 @@ overrides = st.one_of(st.fixed_dictionaries({"a": ctxv}), st.fixed_dictionaries(
 
 @st.composite
 def cases(draw):
-    kind = draw(st.sampled_from(["direct", "child", "default", "mixed"]))
+    kind = draw(st.sampled_from(["direct", "child", "default", "mixed", "default-task"]))
     if kind == "direct":
         body, t = ["list", [["getctx", "a", 0], ["getctx", "b.x", "d"]]], "node"
     elif kind == "child":
         body, t = ["task", ["list", [["getctx", "a", 0], ["getctx", "a.x", None]]], {}, {}], "node"
     elif kind == "default":
         body, t = ["list", [["var", "c"], ["var", "c2"]]], "cnode"
+    elif kind == "default-task":
+        # the default argument is a task call (a job of its own) whose body reads the context
+        body, t = ["list", [["var", "g"], ["lit", ["int", 1]]]], "gnode"
     else:
         body, t = ["list", [["var", "c"], ["task", ["getctx", "b.x", 0], {}, {}]]], "cnode"
     shallow = draw(st.booleans())
@@ -59,7 +64,7 @@ def cases(draw):
         ovs.append(draw(overrides))
     order = draw(st.permutations(ovs))
     calls = [call(ov) for ov in order]
-    shape = draw(st.sampled_from(["seq", "list", "dep", "two-exec", "nested"]))
+    shape = draw(st.sampled_from(["seq", "list", "dep", "two-exec", "nested", "three-step"]))
     progs = []
     if shape == "seq":
         progs = [["seq", calls]]
@@ -71,6 +76,15 @@ def cases(draw):
         progs = [["let", "s", calls[0], ["list", [["var", "s"], ["cond", [["op", "eq", ["var", "s"], ["var", "s"]], calls[1], ["lit", ["int", -1]]]]]]]]
     elif shape == "nested":
         progs = [["list", [["task", calls[0], {}, {"ctx": draw(overrides)}], calls[-1]]]]
+    elif shape == "three-step":
+        # (1) the call is evaluated under one context, (2) in a later execution under another one
+        # (never seen for it: answered by a single reduction), (3) then, after (2) finished, under
+        # the first one again
+        first = draw(st.sampled_from([None, ovs[-1]]))
+        second = ovs[1] if first is None or len(ovs) < 3 else draw(st.sampled_from([None, ovs[1]]))
+        if second == first:
+            second = None if first is not None else ovs[1]
+        progs = [["list", [call(first)]], ["seq", [call(second), call(first)]]]
     else:
         progs = [["list", [calls[0]]], ["list", calls[1:]]]
     root = draw(st.sampled_from([{}, {}, {"a": 9}, {"b": {"x": 8}}]))
@@ -104,7 +118,7 @@ def run_case(ctx: Ctx, case) -> None:
     try:
         oracle(ctx, case)
     finally:
-        after = case["shape"] in ("seq", "dep", "two-exec")
+        after = case["shape"] in ("seq", "dep", "two-exec", "three-step")
         ctx.case(case, labels=[f"shape:{case['shape']}", f"kind:{case['kind']}", f"shallow:{case['shallow']}",
                                "root-empty" if not (case["root"] or case["runctx"]) else "root-nonempty"],
                  nontrivial=after and not (case["root"] or case["runctx"]))
@@ -112,7 +126,7 @@ def run_case(ctx: Ctx, case) -> None:
 
 def check(ctx: Ctx) -> None:
     C.quiet_logs()
-    ctx.given(cases(), lambda c: run_case(ctx, c), ctx.n(200, 6000))
+    ctx.given(cases(), lambda c: run_case(ctx, c), ctx.n(320, 6000))
 
 
 def replay(ctx: Ctx, case) -> None:
